@@ -131,6 +131,7 @@ def config_get(ctx: click.Context, key: str) -> None:
         thai-lint config get greeting
     """
     cfg = ctx.obj["config"]
+    key = key.replace("-", "_")  # keys are normalised when the file is loaded
 
     if key not in cfg:
         click.echo(f"Configuration key not found: {key}", err=True)
@@ -203,6 +204,7 @@ def config_set(ctx: click.Context, key: str, value: str) -> None:
     """
     cfg = ctx.obj["config"]
     converted_value = _convert_value_type(value)
+    key = key.replace("-", "_")  # keys are normalised when the file is loaded
     cfg[key] = converted_value
 
     try:
